@@ -9,10 +9,6 @@ are not marked, compute on the unmarked state what they compute on the marked on
 -/
 namespace Casm
 
-/-- clear the "resolved in the first pass" marks of instructions and data elements -/
-def Defs.unfreeze (d : Defs) : Defs :=
-  { d with instrs := d.instrs.map (fun i => { i with resolved := false }), datas := d.datas.map (fun x => { x with resolved := false }) }
-
 theorem unfreeze_view (d : Defs) : SameView d d.unfreeze := ⟨fun _ => rfl, rfl, rfl, rfl⟩
 
 def ufRes (r : Defs × Bool × List String) : Defs × Bool × List String := (r.1.unfreeze, r.2.1, r.2.2)
